@@ -330,6 +330,7 @@ def _call_graph(cspuz, fn, flag):
 
 def run(sc) -> RunResult:
     res = RunResult()
+    core.fresh_z3_context()
     res.log("start", ID, sc.get("seed"))
     env = dict(sc["env"])
     installed = set(sc["installed"])
